@@ -3,6 +3,9 @@
 //! input line:  <mode>;<hex of the UTF-8 source>     mode 0 = session with `use prelude` (a clone of it),
 //!                                                   mode 1 = fresh Context without the prelude,
 //!                                                   mode 2 = persistent session (definitions accumulate)
+//!              3;<hex>,<hex>,...                    a SEQUENCE of inputs run one after the other on one clone of
+//!                                                   the prelude session (failing inputs included): the outcome is
+//!                                                   S:<o1>,<o2>,... or the first panic `P:…(step k)` / `DP:…(step k)`
 //! output line: V|<ms>  N|<ms>  E:<resolver|name|type|runtime>|<ms>
 //!              P:<file>:<line>: <message>|<ms>      (panic inside interpret)
 //!              DP:<file>:<line>: <message>|<ms>     (panic while rendering the diagnostic)
@@ -124,6 +127,27 @@ pub fn main() {
         let Some((mode, hex)) = line.trim().split_once(';') else {
             continue;
         };
+        if mode == "3" {
+            let start = t0.elapsed().as_millis() as u64;
+            CASE_START_MS.store(start, Ordering::SeqCst);
+            let mut ctx = base.clone();
+            let mut outs: Vec<String> = vec![];
+            let mut failure: Option<String> = None;
+            for (k, h) in hex.split(',').enumerate() {
+                let Some(src) = unhex(h) else { continue };
+                let o = run_case(&mut ctx, &src);
+                if o.starts_with("P:") || o.starts_with("DP:") {
+                    failure = Some(format!("{o} (step {k})"));
+                    break;
+                }
+                outs.push(o);
+            }
+            CASE_START_MS.store(u64::MAX, Ordering::SeqCst);
+            let out = failure.unwrap_or_else(|| format!("S:{}", outs.join(",")));
+            println!("{out}|{}", t0.elapsed().as_millis() as u64 - start);
+            let _ = io::stdout().flush();
+            continue;
+        }
         let Some(src) = unhex(hex) else {
             println!("X|0");
             continue;
@@ -136,6 +160,7 @@ pub fn main() {
                 run_case(&mut ctx, &src)
             }
             "2" => run_case(&mut session, &src),
+            "3" => unreachable!(),
             _ => {
                 let mut ctx = base.clone();
                 run_case(&mut ctx, &src)
